@@ -165,6 +165,23 @@ $(B)/recg_sim: $(NETB)/marker_begin.o $(GCC_LIB_OBJS) $(NETB)/marker_end.o $(GCC
 	$(CXX) -no-pie -fsanitize=address -o $@ $(NETB)/marker_begin.o $(GCC_LIB_OBJS) $(NETB)/marker_end.o $(GCC_BIND_OBJS) $(GLIBB)/drv_can.o $(GLIBB)/drv_canbrief.o $(GLIBB)/drv_vss.o $(RECG_SIM_OBJS) -lm
 rec: $(B)/recg_sim
 
+# ---------------------------------------------------------------- third build for C16: the instrumented build once more, optimised
+# (clang -O2 -DNDEBUG with the same access callbacks): code under `#ifdef __OPTIMIZE__` / `NDEBUG` exists only in optimised builds, and
+# the gcc -O2 build has no access callbacks to see it with
+REENTO := $(B)/reento
+REENTO_CFLAGS := $(REPO_CFLAGS_COMMON) -O2 -DNDEBUG -fno-builtin -fsanitize-coverage=trace-pc-guard,pc-table,trace-loads,trace-stores
+REENTO_LIB_OBJS := $(patsubst $(REPO)/src/%.c,$(REENTO)/lib/%.o,$(LIB_SRCS))
+$(REENTO)/lib/%.o: $(REPO)/src/%.c $(REPO_HDRS) Makefile $(B)/repo_config.mk | dirs
+	@mkdir -p $(dir $@)
+	$(CC) $(REENTO_CFLAGS) $(REPO_LIB_DEFS) -c $< -o $@
+REENTO_SIM_OBJS := $(patsubst %.cc,$(REENTO)/sim/%.o,$(REENT_SIM_SRCS))
+$(REENTO)/sim/%.o: %.cc $(wildcard sim/*.h spec/*.h bindings/*.h engines/reent/*.h engines/reent/*.inc engines/reent/*.txt) Makefile | dirs
+	@mkdir -p $(dir $@)
+	$(CXX) $(SIM_CXXFLAGS) -DREENT_VARIANT_O2=1 -c $< -o $@
+$(B)/reento_sim: $(REENTB)/marker_begin.o $(REENTO_LIB_OBJS) $(REENTB)/marker_end.o $(REENT_BIND_OBJS) $(REENT_DRV_OBJS) $(REENTO_SIM_OBJS)
+	$(CXX) -no-pie -Wl,--wrap=memcpy -Wl,--wrap=memset -Wl,--wrap=memmove $(REENT_WRAPFLAGS) -o $@ $(REENTB)/marker_begin.o $(REENTO_LIB_OBJS) $(REENTB)/marker_end.o $(REENT_BIND_OBJS) $(REENT_DRV_OBJS) $(REENTO_SIM_OBJS) -lm
+reent: $(B)/reento_sim
+
 # ---------------------------------------------------------------- third build for C05: no optimisation at all (what the repository's CMake does when no build type is given)
 G0B := $(B)/g0
 G0_CFLAGS := -std=gnu99 -O0 -g -fno-common -U_FORTIFY_SOURCE -D_FORTIFY_SOURCE=0 -I$(REPO)/include -w
